@@ -5,6 +5,7 @@ import (
 	"fmt"
 	"io"
 	"strings"
+	"sync"
 
 	"github.com/freeconf/yang/meta"
 	"github.com/freeconf/yang/parser"
@@ -39,8 +40,77 @@ func c11L(tier string) int {
 	return 5
 }
 
+// c11LValid: every VALID expression (generated from the RFC grammar) up to this many tokens.
+func c11LValid(tier string) int {
+	if tier == "thorough" {
+		return 11
+	}
+	return 9
+}
+
+var c11ValidMemo = map[string][][]string{}
+var c11ValidMu sync.Mutex
+
+// c11Gen lists every token string of exactly n tokens derivable from the
+// non-terminal nt ("E", "T", "F") of RFC 7950 7.20.2 over the names a,b,c.
+func c11Gen(nt string, n int) [][]string {
+	if n <= 0 {
+		return nil
+	}
+	key := fmt.Sprint(nt, n)
+	if v, ok := c11ValidMemo[key]; ok {
+		return v
+	}
+	var out [][]string
+	cat := func(parts ...[]string) []string {
+		var r []string
+		for _, p := range parts {
+			r = append(r, p...)
+		}
+		return r
+	}
+	switch nt {
+	case "F":
+		if n == 1 {
+			out = append(out, []string{"a"}, []string{"b"}, []string{"c"})
+		}
+		for _, f := range c11Gen("F", n-1) {
+			out = append(out, cat([]string{"not"}, f))
+		}
+		for _, e := range c11Gen("E", n-2) {
+			out = append(out, cat([]string{"("}, e, []string{")"}))
+		}
+	case "T":
+		out = append(out, c11Gen("F", n)...)
+		for k := 1; k < n-1; k++ {
+			for _, f := range c11Gen("F", k) {
+				for _, t := range c11Gen("T", n-1-k) {
+					out = append(out, cat(f, []string{"and"}, t))
+				}
+			}
+		}
+	case "E":
+		out = append(out, c11Gen("T", n)...)
+		for k := 1; k < n-1; k++ {
+			for _, t := range c11Gen("T", k) {
+				for _, e := range c11Gen("E", n-1-k) {
+					out = append(out, cat(t, []string{"or"}, e))
+				}
+			}
+		}
+	}
+	c11ValidMemo[key] = out
+	return out
+}
+
+func c11ValidExprs(n int) [][]string {
+	c11ValidMu.Lock()
+	defer c11ValidMu.Unlock()
+	return c11Gen("E", n)
+}
+
 func (p *c11) Bounds(tier string) map[string]interface{} {
-	return map[string]interface{}{"expression_length": c11L(tier), "full_load_length": 4, "alphabet": c11Tokens, "assignments": 8, "placements": c11Places, "deviations": len(c11Deviations())}
+	return map[string]interface{}{"expression_length": c11L(tier), "valid_expression_length": c11LValid(tier), "full_load_length": 4, "alphabet": c11Tokens, "assignments": 8, "placements": c11Places, "deviations": len(c11Deviations())}
 }
 
 var c11Places = []string{"leaf", "container", "list", "leaf-list", "choice", "case", "uses", "augment", "uses-augment", "refine", "two-if-features", "anydata", "rpc", "notification"}
@@ -59,6 +129,17 @@ func (p *c11) Cases(tier string, emit func(interface{})) {
 				to = n
 			}
 			emit(c11Case{Part: "expr", Len: l, From: from, To: to})
+		}
+	}
+	// valid expressions beyond L, generated from the grammar itself
+	for l := L + 1; l <= c11LValid(tier); l++ {
+		n := len(c11ValidExprs(l))
+		for from := 0; from < n; from += 2048 {
+			to := from + 2048
+			if to > n {
+				to = n
+			}
+			emit(c11Case{Part: "valid", Len: l, From: from, To: to})
 		}
 	}
 	emit(c11Case{Part: "space"})
@@ -321,10 +402,22 @@ func (p *c11) Run(raw json.RawMessage) eng.Result {
 	ss := &sigSet{res: &res}
 	assigns := c11Assignments()
 	switch c.Part {
-	case "expr":
+	case "expr", "valid":
+		var valid [][]string
+		if c.Part == "valid" {
+			valid = c11ValidExprs(c.Len)
+		}
 		for idx := c.From; idx < c.To; idx++ {
-			toks := c11Word(c.Len, idx)
+			var toks []string
+			if c.Part == "valid" {
+				toks = valid[idx]
+			} else {
+				toks = c11Word(c.Len, idx)
+			}
 			ref := c11Parse(toks)
+			if c.Part == "valid" && ref == nil {
+				panic("harness: grammar-generated expression rejected by the reference parser: " + joinExpr(toks))
+			}
 			expr := joinExpr(toks)
 			res.Evals++
 			res.Nontriv++
@@ -396,7 +489,7 @@ func (p *c11) Run(raw json.RawMessage) eng.Result {
 				}
 			}
 		}
-		res.Outcomes = []string{fmt.Sprintf("expr-len-%d", c.Len)}
+		res.Outcomes = []string{fmt.Sprintf("%s-len-%d", c.Part, c.Len)}
 	case "space":
 		// white-space variants of every valid expression of <= 3 tokens plus parenthesised forms
 		var exprs [][]string
